@@ -3,7 +3,7 @@
 From Coq Require Import Reals List Lra.
 From AhrsLib Require Import Base Rot.
 From AhrsGen Require Import C20gen_R.
-From AhrsProps Require Import C20_spec C20_magfix.
+From AhrsProps Require Import C20_spec C20_magfix C20_rows.
 Import ListNotations.
 Open Scope R_scope.
 
@@ -28,3 +28,13 @@ Proof.
   split; [apply magfix_norm_spec; assumption|apply magfix_norm_zero; assumption].
 Qed.
 Print Assumptions C20_mag_is_body_field.
+
+(* the regenerated three-row magnetometer array is the row-wise array of C20_rows.v (so C20_rows_any_length speaks for it) *)
+Theorem C20_mag_rows : forall q0w q0x q0y q0z q1w q1x q1y q1z q2w q2x q2y q2z,
+  unit4 q0w q0x q0y q0z -> unit4 q1w q1x q1y q1z -> unit4 q2w q2x q2y q2z ->
+  forall m0 m1 m2 sm nm00 nm01 nm02 nm10 nm11 nm12 nm20 nm21 nm22,
+  C20_mag_R q0w q0x q0y q0z q1w q1x q1y q1z q2w q2x q2y q2z m0 m1 m2 sm nm00 nm01 nm02 nm10 nm11 nm12 nm20 nm21 nm22
+  = Val (rows [m0;m1;m2] sm [[q0w;q0x;q0y;q0z]; [q1w;q1x;q1y;q1z]; [q2w;q2x;q2y;q2z]]
+              [[nm00;nm01;nm02]; [nm10;nm11;nm12]; [nm20;nm21;nm22]] ++ [sm]).
+Proof. intros. rewrite rows_three. apply magfix_spec; assumption. Qed.
+Print Assumptions C20_mag_rows.
